@@ -108,6 +108,7 @@ pub struct Ctx {
     open_known: Vec<KnownEntry>,
     pub max_shrink_iters: u32,
     pub harness_errors: Vec<String>,
+    pub known_printed: Vec<String>,
 }
 
 #[derive(Clone, Debug)]
@@ -209,7 +210,7 @@ struct Local {
     nontrivial: HashSet<u64>,
     classes: BTreeMap<&'static str, u64>,
     samples: Vec<(u64, Value)>,
-    known: BTreeMap<&'static str, (u64, String)>,
+    known: BTreeMap<&'static str, (u64, String, u64, Value)>,
     fail: Option<(u64, Value, String)>,
 }
 impl Local {
@@ -260,6 +261,7 @@ impl Ctx {
             open_known,
             max_shrink_iters: 2048,
             harness_errors: Vec::new(),
+            known_printed: Vec::new(),
         }
     }
 
@@ -505,7 +507,7 @@ impl Ctx {
                                         }
                                     }
                                     if let Verdict::Known(k, m) = v {
-                                        let e = loc.known.entry(k).or_insert((0, m.clone()));
+                                        let e = loc.known.entry(k).or_insert_with(|| (0, m.clone(), idx, serde_json::to_value(c).unwrap_or(Value::Null)));
                                         e.0 += 1;
                                     }
                                 };
@@ -537,9 +539,17 @@ impl Ctx {
                 *self.classes.entry(format!("{driver}:{k}")).or_insert(0) += v;
             }
             dsamples.extend(l.samples);
-            for (k, (cnt, m)) in l.known {
-                let e = self.known_hits.entry(k.to_string()).or_insert((0, m));
+            for (k, (cnt, m, kidx, kcase)) in l.known {
+                let first = !self.known_hits.contains_key(k);
+                let e = self.known_hits.entry(k.to_string()).or_insert((0, m.clone()));
                 e.0 += cnt;
+                if first {
+                    // keep one concrete instance of every known-finding signature seen in this run
+                    let path = self.root.join("replays").join(self.prop).join(format!("known-{k}.json"));
+                    let _ = std::fs::create_dir_all(path.parent().unwrap());
+                    let doc = json!({"property": self.prop, "driver": driver, "seed": self.seed, "tier": self.tier.name(), "index": kidx, "message": m, "case": kcase});
+                    let _ = std::fs::write(&path, serde_json::to_vec_pretty(&doc).unwrap());
+                }
             }
             if let Some(f) = l.fail {
                 if fail.as_ref().map(|g| f.0 < g.0).unwrap_or(true) {
@@ -615,6 +625,9 @@ impl Ctx {
         let mut violations = self.violations;
         for (k, (cnt, m)) in &self.known_hits {
             if let Some(e) = self.open_known.iter().find(|e| &e.key == k) {
+                if self.known_printed.contains(k) {
+                    continue;
+                }
                 known_lines.push(format!("KNOWN-FINDING: property={} key={} {} (matched {} generated cases; e.g. {})",
                     self.prop, k, e.text, cnt, m));
             } else {
